@@ -52,6 +52,12 @@ ASSUMPTIONS = [
     'PRINT of ledgers without pad directives (the pad plugin would synthesise its transactions a second time)',
     'entries of a FILTERED print whose booking fails on re-load for lack of context (a lot reduction whose '
     'augmentation was filtered out) are counted, not compared; unfiltered prints are compared strictly',
+    'translator tie (C14_source_*): PyMini semantics (Model/PyMini.v), the translator (py2mini.py, src_ledger.py: '
+    'statement ranges of execute_print / transform_* selected by structure, with the checks that `entries` alone goes '
+    'to printer.print_entries and that cooked_select = parser.parse(TEMPLATE.format(<node>.summary_func or ""))) and '
+    'the primitives of Model/PrimsLedger.v (objects as attribute lists; ast.Select/Match/Column/Constant build the '
+    'object with the dataclass fields, which are compared with the imported classes) are trusted; the compiled FROM '
+    'expression is an opaque callable (where_ok); the template text itself is tied by Gen/Templates.v',
 ]
 
 # --------------------------------------------------------------------------
@@ -298,9 +304,14 @@ def generate():
         '',
     ]
     changed = core.write_if_changed(os.path.join(core.COQ, 'Gen', 'Templates.v'), '\n'.join(lines))
-    return {'generated': {'file': 'Gen/Templates.v', 'rewritten': changed,
-                          'keywords': len(tatsu_parser.KEYWORDS),
-                          'sentinel_balances': len(bal), 'sentinel_journal': len(jou)}}
+    out = {'generated': {'file': 'Gen/Templates.v', 'rewritten': changed,
+                         'keywords': len(tatsu_parser.KEYWORDS),
+                         'sentinel_balances': len(bal), 'sentinel_journal': len(jou)}}
+    # translator tie: regenerate coq/Gen/SrcLedgerPrint.v from the source of the imported execute_print /
+    # transform_balances / transform_journal (py2mini; statement ranges selected by structure in src_ledger.py)
+    from . import gen_src
+    out.update(gen_src.generate('ledger_print'))
+    return out
 
 
 # --------------------------------------------------------------------------
